@@ -7,7 +7,7 @@ import time
 
 import z3
 
-from . import explore
+from . import explore, watchdog
 
 
 class Verdict:
@@ -40,6 +40,12 @@ class Prover:
         self.cross_checked = 0
         self.cross_disagree = []
         self.log = []
+        # second opinions are bounded: at most VERIF_CROSS_BUDGET_S seconds per process and never more than a third of the
+        # elapsed run time (so they are spread over the whole run instead of exhausting the budget on the first cells)
+        self.cross_budget_s = float(os.environ.get("VERIF_CROSS_BUDGET_S", "900"))
+        self.cross_secs = 0.0
+        self.cross_skipped = 0
+        self.t_start = time.time()
 
     def check(self, conds, label="", want_model=True):
         """sat / unsat / unknown of the conjunction `conds`."""
@@ -54,7 +60,8 @@ class Prover:
             s.set("timeout", int(max(500, tmo)))
             s.add(*conds)
             try:
-                r = str(s.check())
+                with watchdog.watch(max(500, tmo), label):
+                    r = str(s.check())
             except z3.Z3Exception:
                 r = "unknown"
             if r in ("sat", "unsat"):
@@ -73,15 +80,23 @@ class Prover:
         else:
             self.unknown += 1
         smt2 = None
-        if len(self.samples) < self.keep_samples or self.cross:
+        do_cross = False
+        if self.cross and r in ("sat", "unsat"):
+            do_cross = self.cross_secs < self.cross_budget_s and self.cross_secs <= 0.5 * (time.time() - self.t_start - self.cross_secs) + 5.0
+            if not do_cross:
+                self.cross_skipped += 1
+        if len(self.samples) < self.keep_samples or do_cross:
             try:
                 smt2 = s.to_smt2()
             except Exception:  # noqa
                 smt2 = None
         if smt2 is not None and len(self.samples) < self.keep_samples and len(smt2) < 6000:
             self.samples.append({"label": label, "verdict": r, "secs": round(dt, 4), "smt2": smt2})
-        if self.cross and smt2 is not None and r in ("sat", "unsat"):
-            self._cross(smt2, r, label)
+        if do_cross and smt2 is not None:
+            tc = time.time()
+            with watchdog.watch(25000, "second opinion: " + label):
+                self._cross(smt2, r, label)
+            self.cross_secs += time.time() - tc
         self.log.append((label, r, round(dt, 4)))
         return Verdict(r, m, dt, label, smt2)
 
@@ -113,12 +128,14 @@ class Prover:
             "unknown": self.unknown,
             "solver_s": round(self.secs, 3),
             "cross_checked": self.cross_checked,
+            "cross_skipped_for_budget": self.cross_skipped,
+            "cross_check_s": round(self.cross_secs, 1),
             "second_opinions": getattr(self, "cross_stats", {}),
             "cross_disagreements": self.cross_disagree,
         }
 
 
-def run_z3_binary(smt2, timeout=20):
+def run_z3_binary(smt2, timeout=10):
     try:
         with tempfile.NamedTemporaryFile("w", suffix=".smt2", delete=False, dir="/var/tmp") as f:
             f.write(smt2)
@@ -136,7 +153,7 @@ def run_z3_binary(smt2, timeout=20):
         return "unknown"
 
 
-def run_cvc5_wheel(smt2, timeout_ms=20000):
+def run_cvc5_wheel(smt2, timeout_ms=10000):
     try:
         import cvc5
 
